@@ -1194,3 +1194,80 @@ pub fn bfs_with(
 pub fn rss_bytes() -> u64 {
     std::fs::read_to_string("/proc/self/statm").ok().and_then(|s| s.split_whitespace().nth(1).and_then(|p| p.parse::<u64>().ok())).map(|pages| pages * 4096).unwrap_or(0)
 }
+
+// ---------------------------------------------------------------------------------------------
+// replay of a recorded path without the explorer
+
+/// Re-executes the action path of a replay file (as written by `Node::replay_json`) from the standard root it names, through the
+/// same transition function and oracles, one action at a time.  Returns false when the path does not start at a standard root.
+pub fn replay_path(run: &Run, replay: &Value) -> bool {
+    let path = match replay.get("path").and_then(|p| p.as_array()) {
+        Some(p) => p,
+        None => match replay.get("base").or_else(|| replay.get("base_path")).or_else(|| replay.get("restart_point")).and_then(|b| b.get("path")).and_then(|p| p.as_array()) {
+            Some(p) => p,
+            None => return false,
+        },
+    };
+    let first = match path.first() {
+        Some(f) => f,
+        None => return false,
+    };
+    let net = match first.get("root").and_then(|r| r.as_str()) {
+        Some("Custom02") => NetID::Custom02,
+        Some("Custom08") => NetID::Custom08,
+        Some("Testnet") => NetID::Testnet,
+        Some("Mainnet") => NetID::Mainnet,
+        Some("Custom03") => NetID::Custom03,
+        Some("Custom04") => NetID::Custom04,
+        Some("Custom05") => NetID::Custom05,
+        Some("Custom06") => NetID::Custom06,
+        Some("Custom07") => NetID::Custom07,
+        _ => return false,
+    };
+    let fm: u128 = first.get("fee_multiplier").and_then(|f| f.as_str()).and_then(|s| s.parse().ok()).unwrap_or(0);
+    let wallet = first.get("wallet").and_then(|w| w.as_bool()).unwrap_or(true);
+    let (_w, mut node) = crate::props::e1::root(net, fm, wallet);
+    let eng = Engine::new(run);
+    println!("replay: root genesis[{:?}] fee_multiplier={} wallet={}", net, fm, wallet);
+    for step in path.iter().skip(1) {
+        let action = if step.get("open").is_some() {
+            Action::Open
+        } else if step.get("restart").is_some() {
+            Action::Restart
+        } else if let Some(h) = step.get("jump").and_then(|h| h.as_u64()) {
+            Action::Jump(h)
+        } else if let Some(s) = step.get("seal") {
+            if s.is_null() {
+                Action::Seal(None)
+            } else {
+                let delta = s.get("delta").and_then(|d| d.as_i64()).unwrap_or(0) as i8;
+                let dest = s.get("reward_dest").and_then(|d| d.as_str()).and_then(|d| d.parse::<tmelcrypt::HashVal>().ok()).map(melstructs::Address).unwrap_or_else(addr_true);
+                Action::Seal(Some(ProposerAction { fee_multiplier_delta: delta, reward_dest: dest }))
+            }
+        } else if let Some(txs) = step.get("txs").and_then(|t| t.as_array()) {
+            let mut v = vec![];
+            for t in txs {
+                match t.get("stdcode_hex").and_then(|h| h.as_str()).and_then(|h| hex::decode(h).ok()).and_then(|b| stdcode::deserialize::<Transaction>(&b).ok()) {
+                    Some(tx) => v.push(tx),
+                    None => return false,
+                }
+            }
+            Action::Batch { label: step.get("batch").and_then(|b| b.as_str()).unwrap_or("batch").to_string(), txs: v, expect_ok: false }
+        } else {
+            return false;
+        };
+        let out = eng.step(&node, &action);
+        match out {
+            StepOut::Next(n) => {
+                println!("replay: {} -> ok", action.label());
+                node = n;
+            }
+            StepOut::Rejected => println!("replay: {} -> rejected (state unchanged)", action.label()),
+            StepOut::Pruned => {
+                println!("replay: {} -> an oracle reported or lock-step was lost; stopping", action.label());
+                break;
+            }
+        }
+    }
+    true
+}
